@@ -140,9 +140,10 @@ CHECKS = {
              "itself a generated history, so every step is a crash point. non-trivial = a crash with >=1 delivered-but-unacknowledged event "
              "outstanding and >=1 durable write before it; distinct by hash of the op-list",
         assumptions=HIST_ASSUME,
-        units=[rapid("TestC01_History", 6000, 400000), plain("TestC01_KnownFindings")],
+        units=[rapid("TestC01_History", 6000, 400000), plain("TestC01_KnownFindings"), rapid("TestC01_RollbackRestart", 1500, 200000)],
         min_share=dict(any={"crash_mid_save": ["histories", 0.10], "ack_delayed_across_save": ["histories", 0.20], "crash_outstanding_after_write": ["histories", 0.10],
-                            "end_transient_after_events": ["histories", 0.10]}),
+                            "end_transient_after_events": ["histories", 0.10],
+                            "rollback_restart_checkpointed_event_not_resent": ["rollback_restart_cases", 0.2]}),
     ),
     "C02": dict(
         level="exploration",
@@ -204,7 +205,7 @@ CHECKS = {
              "after every save that happened (the furthest settled position of every advanced vBucket of the session must be in it); "
              "distinct by hash of the op-list",
         assumptions=HIST_ASSUME + ["'before the dump' is not separable from 'before the call' from outside: the harness orders ops before the Save call, during the blocked store call, or after it returned"],
-        units=[rapid("TestC05_History", 6000, 400000), rapid("TestC05_FileHistory", 1500, 100000), rapid("TestC05_Periodic", 40, 600, 4, 16), plain("TestC05_Fixed")],
+        units=[rapid("TestC05_History", 6000, 400000), rapid("TestC05_FileHistory", 1500, 100000), rapid("TestC05_CouchbaseBackend", 120, 6000, 8, 16), rapid("TestC05_Periodic", 40, 600, 4, 16), plain("TestC05_Fixed")],
         min_share=dict(any={"save_ok_after_failure": ["histories", 0.10], "ack_during_store": ["histories", 0.10], "save_in_flight": ["histories", 0.2]}),
     ),
     "C06": dict(
@@ -219,7 +220,7 @@ CHECKS = {
              "delivered and stops the client (panic on the feeding goroutine = process stop in production). non-trivial = an ack issued after >=2 "
              "later markers of that vBucket and a successful save in the history",
         assumptions=HIST_ASSUME,
-        units=[rapid("TestC06_History", 6000, 400000)],
+        units=[rapid("TestC06_History", 6000, 400000), rapid("TestC06_RollbackBranch", 1500, 200000)],
         min_share=dict(any={"ack_after_2_later_markers": ["histories", 0.2], "outside_snapshot": ["histories", 0.05], "backlog_resent": ["histories", 0.1],
                             "reload_after_failover": ["histories", 0.05]}),
     ),
@@ -375,6 +376,7 @@ CHECKS = {
             rapid("TestC09_Rapid", 20000, 400000),
             rapid("TestC09_DiscoveryHistory", 3000, 200000),
             rapid("TestC09_LeaderGroup", 1, 1, 2, 8),
+            rapid("TestC09_CouchbaseGroup", 1, 1, 2, 8),
         ],
         min_share=dict(any={"renumbered_same_group_size": ["discovery_histories", 0.3]}),
     ),
